@@ -224,20 +224,31 @@ def gen_ptr16(s: Src) -> int:
     return 0xC00C + s.below(0x35) if s.below(2) else s.pick(_PTR16)
 
 
+_SMALL16 = [0, 1, 5, 10, 20, 100, 443, 853, 5060, 8080, 65535 & 0x7FFF]
+_SMALL32 = [0, 1, 60, 300, 900, 3600, 7200, 86400, 604800, 1209600, 2024010101, 2025063001, 1700000000]
+
+
 def gen_u16(s: Src) -> int:
-    k = s.below(4)
-    return s.below(101) if k == 0 else gen_ptr16(s) if k == 1 else s.u16()
+    """half of the values are realistic small numbers (no octet >= 0xC0), the rest pointer look-alikes or arbitrary"""
+    k = s.below(8)
+    if k < 2:
+        return s.below(101)
+    if k < 4:
+        return s.pick(_SMALL16)
+    return gen_ptr16(s) if k == 4 else s.u16()
 
 
 def gen_u32(s: Src) -> int:
-    k = s.below(6)
-    if k == 0:
+    k = s.below(10)
+    if k < 2:
         return s.below(101)
-    if k == 1:
+    if k < 5:
+        return s.pick(_SMALL32)
+    if k == 5:
         return gen_ptr16(s) << 16 | s.u16()
-    if k == 2:
+    if k == 6:
         return s.u16() << 16 | gen_ptr16(s)
-    if k == 3:
+    if k == 7:
         return s.u8() << 24 | gen_ptr16(s) << 8 | s.u8()
     return s.u32()
 
